@@ -259,6 +259,12 @@ func checkSeq(a *analysis, evs []event) {
 		switch e.kind {
 		case evTW:
 			w[e.side] = append(w[e.side], rec{typ: e.typ, seq: e.seq, n: e.n, wid: e.wid, ctr: e.ctr, pos: i})
+		case evTWA:
+			// a write that failed did not consume a sequence number and was
+			// not (completely) transmitted
+			if l := w[e.side]; e.err && len(l) > 0 && l[len(l)-1].typ == e.typ && l[len(l)-1].seq == e.seq {
+				w[e.side] = l[:len(l)-1]
+			}
 		case evTR:
 			if !e.err {
 				r[e.side] = append(r[e.side], rec{typ: e.typ, seq: e.seq, n: e.n, wid: e.wid, ctr: e.ctr, pos: i, unknownS: e.seq == ^uint32(0) && e.typ == msgNewKeys})
